@@ -118,4 +118,54 @@ theorem sliceRange_mid {α : Type} (pre mid post : List α) :
     sliceRange (pre ++ mid ++ post) pre.length (pre.length + mid.length) = some mid := by
   simp [sliceRange, List.drop_append, List.take_append]
 
+/-! ### ids handed back by the plain builder -/
+
+theorem call_points_mono {A : Type} (b : BuilderImpl S) (c : Call (Pt S) A) :
+    b.points.length ≤ (b.call c).1.points.length := by
+  cases c with
+  | end_ cl => cases cl <;> simp [BuilderImpl.call, BuilderImpl.end_]
+  | _ => simp [BuilderImpl.call, BuilderImpl.begin, BuilderImpl.lineTo, BuilderImpl.quadraticBezierTo,
+      BuilderImpl.cubicBezierTo] <;> omega
+
+theorem run_ids_ge {A : Type} (b : BuilderImpl S) (prog : List (Call (Pt S) A)) (m : Nat)
+    (hm : m ≤ b.points.length) : ∀ id ∈ (b.run prog).2, m ≤ id := by
+  induction prog generalizing b with
+  | nil => simp [BuilderImpl.run]
+  | cons c r ih =>
+    have hmono := call_points_mono b c
+    have ih' := ih (b.call c).1 (by omega)
+    intro id hid
+    simp only [BuilderImpl.run] at hid
+    cases c with
+    | end_ cl => simp [BuilderImpl.call, consId] at hid; exact ih' id (by simpa [BuilderImpl.call] using hid)
+    | begin p a =>
+      simp [BuilderImpl.call, consId, BuilderImpl.begin] at hid
+      rcases hid with h | h
+      · omega
+      · exact ih' id (by simpa [BuilderImpl.call, BuilderImpl.begin] using h)
+    | line p a =>
+      simp [BuilderImpl.call, consId, BuilderImpl.lineTo] at hid
+      rcases hid with h | h
+      · omega
+      · exact ih' id (by simpa [BuilderImpl.call, BuilderImpl.lineTo] using h)
+    | quad k p a =>
+      simp [BuilderImpl.call, consId, BuilderImpl.quadraticBezierTo] at hid
+      rcases hid with h | h
+      · omega
+      · exact ih' id (by simpa [BuilderImpl.call, BuilderImpl.quadraticBezierTo] using h)
+    | cubic k1 k2 p a =>
+      simp [BuilderImpl.call, consId, BuilderImpl.cubicBezierTo] at hid
+      rcases hid with h | h
+      · omega
+      · exact ih' id (by simpa [BuilderImpl.call, BuilderImpl.cubicBezierTo] using h)
+
+theorem adjustIds_total (m : Nat) (ids : List Nat) (h : ∀ id ∈ ids, m ≤ id) :
+    adjustIds m ids = some (ids.map (· - m)) := by
+  induction ids with
+  | nil => rfl
+  | cons i r ih =>
+    have hi := h i (by simp)
+    simp [adjustIds, adjustId, csub, hi, ih (fun id hid => h id (by simp [hid]))]
+
+
 end Lyon.Path
